@@ -31,3 +31,8 @@ func (c *Client) VerifRegistered() map[string]uint16 {
 	}
 	return res
 }
+
+// VerifMatch exposes the unexported topic matcher of the message handlers.
+func VerifMatch(route []string, topic []string) bool {
+	return match(route, topic)
+}
